@@ -15,19 +15,20 @@ import LdkModel.Proofs.OnchainClaims
 namespace Ldk.C07
 open Ldk Ldk.Pkg Ldk.Onchain
 
-/-- **feerate_bump_monotone** — (as C06) whenever `feerate_bump` answers `(fee', rate')` for a
-    transaction of weight `w ≥ 4`: the feerate never decreases; the answer is either a plain
+/-- **feerate_bump_monotone** — (as C06) whenever `feerate_bump` answers `(fee', rate')`: for every
+    transaction weight `w ≥ 4` the feerate never decreases (tight: Props/C06.lean has the `w < 4`
+    counter-example); for every weight the answer is either a plain
     re-broadcast at the previous feerate and fee, or a replacement paying at least the previous fee
     plus the relay increment (BIP-125 rules 3/4) that leaves at least dust to the output; a
     `ForceBump` of a feerate ≥ 4 sat/kW is always such a replacement. -/
 theorem feerate_bump_monotone (w inp dust prev : Nat) (s : FeerateStrategy) (est fee' rate' : Nat)
-    (hw : 4 ≤ w) (h : feerateBump w inp dust prev s est = some (fee', rate')) :
-    prev ≤ rate' ∧
+    (h : feerateBump w inp dust prev s est = some (fee', rate')) :
+    (4 ≤ w → prev ≤ rate') ∧
     ((rate' = prev ∧ fee' = prev * w / 1000) ∨
      (prev * w / 1000 + INCREMENTAL_RELAY_FEE_SAT_PER_1000_WEIGHT * w / 1000 ≤ fee' ∧ dust ≤ inp - fee')) ∧
     (s = .forceBump → 4 ≤ prev →
       prev * w / 1000 + INCREMENTAL_RELAY_FEE_SAT_PER_1000_WEIGHT * w / 1000 ≤ fee') :=
-  feerate_bump_monotone_core w inp dust prev s est fee' rate' hw h
+  feerate_bump_monotone_core w inp dust prev s est fee' rate' h
 
 /-- **bump_progress** — the next bump height of ANY package at ANY height is strictly in the future
     and at most `LOW_FREQUENCY_BUMP_INTERVAL` away, and the nearer an input's deadline, the sooner:
